@@ -327,7 +327,13 @@ def make_loss(spec):
 def make_error_rate(costs):
     from fairlearn.reductions import ErrorRate
 
-    return ErrorRate() if costs is None else ErrorRate(costs=dict(costs))
+    if costs is None:
+        return ErrorRate()
+    d = dict(costs)
+    m = ErrorRate(costs=d)
+    # the caller goes on using (and changing) its dict, e.g. in a cost sweep: the moment keeps the costs it was given
+    d["fp"], d["fn"] = d["fn"] + 7.0, d["fp"] + 3.0
+    return m
 
 
 def predictor(vec):
